@@ -79,6 +79,7 @@ struct CtlHandle(Arc<Ctl>);
 
 impl Controller for CtlHandle {
     fn gate(&self, name: &'static str, key: &str) -> Option<GateFuture> {
+        seams::note_gate(name);
         let mut st = self.0.st.lock().unwrap();
         *st.arrivals.entry(name.to_string()).or_insert(0) += 1;
         // Flushes of different shards share the blocking pool; their relative progress would depend on
@@ -402,6 +403,7 @@ fn main() {
                 errno: f["errno"].as_str().map(errno_of).unwrap_or(0),
                 short: f["short"].as_i64().unwrap_or(-1),
                 then_crash: f["then_crash"].as_bool().unwrap_or(false),
+                until_gate: f["until_gate"].as_str().map(|s| s.to_string()),
                 seen: 0,
             });
         }
